@@ -1032,6 +1032,11 @@ wait:
 	}
 	tick.Stop()
 	if r.timedOut {
+		if dir := os.Getenv("C45_STACKS"); dir != "" {
+			buf := make([]byte, 1<<22)
+			buf = buf[:runtime.Stack(buf, true)]
+			_ = os.WriteFile(dir+"/stall-stacks.txt", buf, 0o644)
+		}
 		if impl, ok := h.(*streamHandleImpl); ok {
 			r.stalled = c45StalledStage(c, impl.stageActors, actors)
 			r.pids = impl.stageActors
